@@ -33,7 +33,7 @@ type Container struct {
 	cleanerUseCase     *cleaner.UseCase
 	coreUseCase        *core.UseCase
 	dirUseCase         *dir.UseCase
-	storeUseCase       *store.UseCase
+	storeUseCase       *store.Guarded
 	transactionUseCase *transaction.UseCase
 
 	contentRepo     *contentRepo.Repo
